@@ -20,6 +20,7 @@ def run(chk):
     clones.rule_tables(chk, 'N5', ('hash',), floor=20)
     clones.rule_unreachable(chk, 'U1', ('hash',), floor=20)
     clones.rule_insert_ladders(chk, 'N6', ('hash',), floor=100)
+    clones.rule_progressions(chk, 'N10')
     clones.rule_dup_stores(chk, 'W6', ('hash',), floor=1)
     clones.rule_byte_order(chk, 'N7', ('hash',), floor=20)
     from . import twins as _tw
